@@ -1089,7 +1089,8 @@ class TypeBlocks(ContainerOperand):
                     if retain_key_order:
                         indices = (self._index[x] for x in key)
                     else:
-                        indices = (self._index[x] for x in sorted(key))
+                        # sort the (block, column) pairs, not the keys: negative integers in the key would otherwise sort before positive ones
+                        indices = sorted(self._index[x] for x in key) #type: ignore
                 elif key is None: # get all
                     indices = self._index
                 else:
